@@ -26,9 +26,14 @@ def standard_list(sc):
     """(description, adder) for a generous standard list"""
     L = []
     p = sc.p
+    ab_rng = getattr(sc, 'rng', None)
     for port in range(1, p + 1):
         for code in (calsim.SHORT, calsim.OPEN, calsim.MATCH):
-            L.append((('reflect', port, code), lambda port=port, code=code: sc.add_reflect(port, code)))
+            if sc.typ not in ('T16', 'U16') and p > 1 and getattr(sc, 'mixed_shapes', False) and ab_rng.random() < 0.5:
+                # the measurement matrix abbreviated to the standard's own cell: no leakage sample from this standard
+                L.append((('reflect', port, code, 'ab'), lambda port=port, code=code: sc.add_reflect(port, code, abbreviated='both')))
+            else:
+                L.append((('reflect', port, code), lambda port=port, code=code: sc.add_reflect(port, code)))
     for i in range(1, p + 1):
         for j in range(i + 1, p + 1):
             L.append((('through', i, j), lambda i=i, j=j: sc.add_through(i, j)))
@@ -63,7 +68,9 @@ def jacobian_rank(sc, descs):
     for d in descs:
         ports = [d[1] - 1] if d[0] == 'reflect' else [d[1] - 1, d[2] - 1]
         m = np.zeros((p, p), bool)
-        if sc.typ in ('T16', 'U16'):
+        if d[0] == 'reflect' and len(d) > 3:
+            m[ports[0], ports[0]] = True
+        elif sc.typ in ('T16', 'U16'):
             # every cell of the 16-term equations involves every S entry: only standards that specify the
             # whole S matrix are counted (conservative: fewer sets are called determining)
             if len(ports) == p:
@@ -159,6 +166,7 @@ def run(chk):
                 if typ in ('T16', 'U16') and n > 2:
                     continue
                 sc = calsim.Scenario(rng, typ, n, n, 1, form=rng.choice(['m', 'ab'])).begin()
+                sc.mixed_shapes = rng.random() < 0.5           # full and abbreviated measurement matrices mixed
                 L = standard_list(sc)
                 rng.shuffle(L)
                 sixteen = typ in ('T16', 'U16')
@@ -169,7 +177,7 @@ def run(chk):
                     L.sort(key=lambda e: 1 if e is firstd else (0 if e[0][0] == 'through' else (2 if e[0][0] == 'reflect' else 3)))
                 elif len(L) > 14:
                     L = L[:14] if rng.random() < 0.3 else L
-                full_rank = 4 * n * n - 1 if sixteen else jacobian_rank(sc, [d for d, _ in standard_list(sc)])
+                full_rank = 4 * n * n - 1 if sixteen else jacobian_rank(sc, [(d[0], d[1], d[2]) if d[0] == 'reflect' else d for d, _ in L])
                 if full_rank == 0:
                     continue
                 dut = sc.random_dut()
